@@ -201,6 +201,11 @@ def rule_f(ctx):
         ctx.ob("st-loop-exits-only-when-empty-or-aborted", good,
                "the single-threaded loop stops only when the queue is empty or the abort signal is set", [e.site for e in exits])
     c06.rule_a(ctx)
+    mt_worker_loop_rule(ctx)
+
+
+def mt_worker_loop_rule(ctx):
+    P = ctx.prog
     # the multi-threaded sibling: a worker leaves its run loop only with its fast slot and local queue empty (or aborted); it then
     # searches / parks on the assumption that it holds no runnable task
     ws = [w for w in P.all_bodies() if w.name.startswith("executor::mt_executor::run_local_worker") and any(True for _ in w.calls(r"Runnable::run$"))]
@@ -366,3 +371,11 @@ def rule_awaits(ctx):
 
 
 RULES.append(("C04.n", "await inventory: only futures whose completion rule is covered are polled on the delivery path", rule_awaits))
+
+
+def rule_mustpass(ctx):
+    from . import mustpass
+    mustpass.check(ctx, ['process-event-runs', 'process-query-runs', 'process-runs', 'process-spawns', 'init-runs', 'step-until-steps', 'recv-runs-handler', 'recv-notifies-sender'])
+
+
+RULES.append(("C04.o", "must-pass-through: no path around the effects this property rests on (added fast paths / early returns)", rule_mustpass))
